@@ -164,6 +164,16 @@ def oracle_c10(scn, run):
 
 # ---------------------------------------------------------------- C02 (floor at the log position)
 
+def expected_postings(q):
+    """(src, dst, amount) of the postings a `create` of the generator commits, None for the multi-send form"""
+    if q.get("sends"):
+        return None
+    ps = [(q["src"], q["dst"], str(q["amount"]))]
+    if q.get("via") in ("alias", "aliasmeta"):   # the source is named a second time, by a variable that is only a destination
+        ps.append(("world", q["src"], "1"))
+    return ps
+
+
 def oracle_c02(scn, run):
     v = []
     reqs = scn["requests"]
@@ -180,7 +190,7 @@ def oracle_c02(scn, run):
                 grant = None if any(q.get("force") for q in cands) else 0
                 via = "revert"
             else:
-                cands = [q for q in reqs if q["kind"] == "create" and len(ps) == 1 and (q["src"], q["dst"], str(q["amount"])) == (ps[0][0], ps[0][1], ps[0][2])]
+                cands = [q for q in reqs if q["kind"] == "create" and expected_postings(q) == [tuple(p[:3]) for p in ps]]
                 if cands:
                     grant = max((q.get("over") or 0) for q in cands)
                     via = "+".join(sorted({q["via"] for q in cands}))
